@@ -46,6 +46,18 @@ pub struct SimConfig {
     pub protocol_parameters: ProtocolParameters,
     pub tx_step: u64,
     pub blocks_step: u64,
+    /// signed entity types enabled on top of MithrilStakeDistribution (always on)
+    pub types: Vec<SignedEntityTypeDiscriminants>,
+}
+
+/// every optional signed entity type
+pub fn all_types() -> Vec<SignedEntityTypeDiscriminants> {
+    vec![
+        SignedEntityTypeDiscriminants::CardanoStakeDistribution,
+        SignedEntityTypeDiscriminants::CardanoTransactions,
+        SignedEntityTypeDiscriminants::CardanoBlocksTransactions,
+        SignedEntityTypeDiscriminants::CardanoDatabase,
+    ]
 }
 
 impl SimConfig {
@@ -54,15 +66,7 @@ impl SimConfig {
         let _ = std::fs::create_dir_all(&snapshot_dir);
         ServeCommandConfiguration {
             protocol_parameters: Some(self.protocol_parameters.clone()),
-            signed_entity_types: Some(
-                [
-                    SignedEntityTypeDiscriminants::CardanoStakeDistribution.to_string(),
-                    SignedEntityTypeDiscriminants::CardanoTransactions.to_string(),
-                    SignedEntityTypeDiscriminants::CardanoBlocksTransactions.to_string(),
-                    SignedEntityTypeDiscriminants::CardanoDatabase.to_string(),
-                ]
-                .join(","),
-            ),
+            signed_entity_types: Some(self.types.iter().map(|d| d.to_string()).collect::<Vec<_>>().join(",")),
             data_stores_directory: self.data_dir.join("stores"),
             cardano_transactions_signing_config: Some(CardanoTransactionsSigningConfig {
                 security_parameter: BlockNumberOffset(0),
